@@ -20,7 +20,7 @@ ID = "C07"
 LEVEL = "model_checking"
 RULE = (
     "Exhaustive product of a rational lattice: line_coordinates(start in {-3,0,1/4,1000} x extent in k/4, k=0..20 x "
-    "spacing in k/4, k=1..24 x adjust x pixel_register), sizes 1..6, grid_coordinates(regions x shapes {1..4}^2 / scalar "
+    "spacing in k/4, k=1..24 x adjust x pixel_register), sizes 1..6, non-dyadic intervals with 2..160 nodes given by size or by the matching spacing, grid_coordinates(regions x shapes {1..4}^2 / scalar "
     "and per-direction spacings x adjust x pixel x meshgrid x extra_coords), invalid combinations, profile_coordinates "
     "(lattice end points x size 1..5 x extra). Each lattice is repeated under exact dyadic scale frames. A case is "
     "non-trivial unless it is an expected-refusal case; distinct = distinct canonical case."
@@ -61,6 +61,13 @@ def cases(tier, seed):
                 for size in range(1, 7):
                     for pixel in (False, True):
                         yield dict(kind="line_size", sc=sc, start=start, ext=ek / 4, size=size, pixel=pixel)
+        if sc == 1.0:
+            # non-dyadic extents with many nodes: both bounds must still be hit exactly (added after seed C13-1)
+            for start, stop in ((0.0, 0.7), (0.0, 5.0), (-3.3, 0.0), (0.0, 10.0), (1.1, 7.3), (-0.1, 0.2)):
+                for size in range(2, 161):
+                    for pixel in (False, True):
+                        yield dict(kind="line_big", start=start, stop=stop, size=size, pixel=pixel, by="size")
+                        yield dict(kind="line_big", start=start, stop=stop, size=size, pixel=pixel, by="spacing")
         specs = [dict(shape=[a, b]) for a in range(1, 5) for b in range(1, 5)]
         specs += [dict(spacing=s) for s in (0.5, 0.75, 1.0, 2.5)]
         specs += [dict(spacing=[a, b]) for a, b in ((0.5, 1.0), (1.0, 0.5), (0.75, 1.25), (2.0, 0.25), (1.5, 1.5), (7.0, 0.5))]
@@ -102,7 +109,7 @@ def run(case, rec):
     import verde as vd
 
     kind = case["kind"]
-    sc = case["sc"]
+    sc = case.get("sc", 1.0)
     if kind == "line_spacing":
         start, stop, sp = case["start"] * sc, (case["start"] + case["ext"]) * sc, case["sp"] * sc
         adjust, pixel = case["adjust"], case["pixel"]
@@ -144,6 +151,29 @@ def run(case, rec):
             if size > 1:
                 rec.check(float(got[-1]) == stop, "last node != stop")
         rec.cls("size=%d pixel=%s" % (size, pixel))
+        return
+    if kind == "line_big":
+        start, stop, size, pixel = case["start"], case["stop"], case["size"], case["pixel"]
+        if case["by"] == "size":
+            got = call(rec, vd.line_coordinates, start, stop, size=size, pixel_register=pixel)
+            nodes, _ = G.line_nodes_size(start, stop, size, pixel)
+        else:
+            k = size - 1
+            spacing = (stop - start) / k
+            got = call(rec, vd.line_coordinates, start, stop, spacing=spacing, pixel_register=pixel)
+            ks, _ = G.n_intervals(start, stop, spacing)
+            rec.check(ks == {k}, "harness: spacing %r does not single out %d intervals (%s)" % (spacing, k, ks))
+            nodes, _, _ = G.line_nodes_spacing(start, stop, spacing, "spacing", pixel, k)
+        if raised(got):
+            return rec.check(False, "line_coordinates raised %r" % (got,))
+        got = np.asarray(got)
+        rec.check(got.shape == (len(nodes),), "node count %s != %d" % (got.shape, len(nodes)))
+        if got.shape == (len(nodes),):
+            rec.check(G.close_nodes(got, nodes, (start, stop)), "nodes are not evenly spaced over [%r, %r]" % (start, stop))
+            rec.check(float(got.min()) >= start and float(got.max()) <= stop, "node outside [start, stop]: min %r max %r" % (got.min(), got.max()))
+            if not pixel:
+                rec.check(float(got[0]) == start and float(got[-1]) == stop, "bounds not hit exactly: first %r last %r (start %r stop %r)" % (got[0], got[-1], start, stop))
+        rec.cls("line_big/%s" % case["by"])
         return
     if kind == "grid":
         region = [v * sc for v in case["region"]]
